@@ -31,6 +31,9 @@ func runC04Case(c *Ctx, kind string, input []rune) {
 		c.fail(Failure{Kind: "oracle", Op: op, Impl: impl, Note: msg})
 		return
 	}
+	if c.Evals%8 == 0 {
+		checkTokEntryPoints(c, kind, 0, input, ts)
+	}
 	c.model(op, impl, "model")
 }
 
@@ -74,6 +77,9 @@ func propC04(c *Ctx) {
 }
 
 func replayTok(c *Ctx, op string) {
+	if replayEntry(c, op) {
+		return
+	}
 	f := strings.Fields(op)
 	if len(f) != 4 {
 		return
@@ -236,6 +242,9 @@ func runC15Case(c *Ctx, kind string, optSets []int, input []rune) {
 		if bad != "" {
 			c.fail(Failure{Kind: "oracle", Op: op, Impl: impl, Note: bad + " (option-free stream: " + showTks(raw) + ")"})
 			continue
+		}
+		if c.Evals%16 == 0 {
+			checkTokEntryPoints(c, kind, o, input, ts)
 		}
 		c.model(op, impl, "model")
 	}
